@@ -7,7 +7,10 @@
 #define CQV_BW_LO 0
 #endif
 #ifndef CQV_BW_HI
-#define CQV_BW_HI 255
+#define CQV_BW_HI 32
+#endif
+#ifndef CQV_MULW
+#define CQV_MULW(x) ((size_t)(x) * (size_t)bit_width)
 #endif
 #ifndef CQV_U8_LO
 #define CQV_U8_LO 0
@@ -77,9 +80,13 @@ void h_bitunpack_32(void) {
   size_t count = nondet_size_t();
   int bit_width = nondet_int();
   size_t r = carquet_bitunpack_32(input, count, bit_width, values);
-  if (bit_width == 0) CQV_CANARY("unpack_32 width 0");
+#if CQV_BW_LO == 0
+  if (bit_width == 0 && count > 0) CQV_CANARY("unpack_32 width 0");
+#endif
+#if CQV_BW_HI > 0
   if ((count & 7) != 0 && bit_width != 0) CQV_CANARY("unpack_32 partial group");
   if ((count & 7) == 0 && count >= 16 && bit_width != 0) CQV_CANARY("unpack_32 whole groups only");
+#endif
   CQV_CANARY("bitunpack_32 returns");
 }
 
@@ -89,8 +96,12 @@ void h_bitpack_32(void) {
   size_t count = nondet_size_t();
   int bit_width = nondet_int();
   size_t r = carquet_bitpack_32(values, count, bit_width, output);
-  if (bit_width == 0) CQV_CANARY("pack_32 width 0");
+#if CQV_BW_LO == 0
+  if (bit_width == 0 && count > 0) CQV_CANARY("pack_32 width 0");
+#endif
+#if CQV_BW_HI > 0
   if ((count & 7) != 0 && bit_width != 0) CQV_CANARY("pack_32 partial group");
   if ((count & 7) == 0 && count >= 16 && bit_width != 0) CQV_CANARY("pack_32 whole groups only");
+#endif
   CQV_CANARY("bitpack_32 returns");
 }
